@@ -72,10 +72,11 @@ def make_classes():
             super()._take(t)
             ENV.s.log("acq", who(), self.count)
 
-        def release(self):
-            super().release()
+        def _after_release(self):
+            # log first (the lock is free already), then let the scheduler pre-empt
             if ENV is not None and ENV.s is ds.CUR and not ENV.s.killed:
                 ENV.s.log("rel", who(), self.count)
+            super()._after_release()
 
     class ScriptedEmitter(EventEmitter):
         def __init__(self, event_queue, watch, *, timeout=1.0, event_filter=None):
@@ -334,9 +335,12 @@ def run_program(prog, chooser, max_steps=6000):
     for i in range(len(threads)):
         env.tid[s.spawn(f"a{i}", api(i)).name] = f"a{i}"
     env.tid[s.spawn("m", main).name] = "m"
+    saved_yar = ds.YIELD_AFTER_RELEASE
+    ds.YIELD_AFTER_RELEASE = True        # also pre-empt right after a lock is released (state updated outside the lock)
     try:
         s.run()
     finally:
+        ds.YIELD_AFTER_RELEASE = saved_yar
         if undo:
             undo()
         if env.scratch:
